@@ -393,6 +393,69 @@ def check_constructors(repo, rep):
     rep.ob("C03.R2", fvf, "Cell._from_value passes (row, col) to every cell class", not bad, f"{bad}", key="C03.R2@from_value:pos")
 
 
+def _cached_functions(tree):
+    out = {}
+    for cls in [n for n in ast.walk(tree) if isinstance(n, ast.ClassDef)]:
+        for fn in [n for n in cls.body if isinstance(n, ast.FunctionDef)]:
+            if any(isinstance(d, ast.Call) and call_name(d) == "cache" for d in fn.decorator_list):
+                out[f"{cls.name}.{fn.name}"] = (cls, fn)
+    return out
+
+
+def check_new_memo(repo, rep):
+    """A method that was not memoised in the confirmed tree may only become memoised if nothing it reads can change:
+    the data attributes it reads (directly or through methods of its own class) must not be assigned anywhere outside
+    constructors."""
+    from .. import refcheck
+    ref_ov = refcheck.reference_overlay()
+    mods = ("model.py", "cell.py", "document.py", "formula.py", "xrefs.py", "containers.py")
+    # attributes assigned anywhere (outside __init__/__new__/from_* constructors)
+    written = {}
+    for mod in mods:
+        for fn in [n for n in ast.walk(repo.tree(mod)) if isinstance(n, ast.FunctionDef)]:
+            if fn.name in ("__init__", "__new__", "__post_init__"):
+                continue
+            for n in body_walk(fn):
+                tg = n.targets if isinstance(n, ast.Assign) else ([n.target] if isinstance(n, (ast.AugAssign, ast.AnnAssign)) else [])
+                for t in tg:
+                    for x in ast.walk(t):
+                        if isinstance(x, ast.Attribute) and isinstance(x.ctx, ast.Store):
+                            written.setdefault(x.attr, f"{mod}:{fn.name}")
+                if isinstance(n, ast.Call) and call_name(n) == "setattr" and len(n.args) == 3 and isinstance(try_const(n.args[1]), str):
+                    written.setdefault(try_const(n.args[1]), f"{mod}:{fn.name}")
+    n_new = 0
+    for mod in mods:
+        cur = _cached_functions(repo.tree(mod))
+        rel = f"src/numbers_parser/{mod}"
+        ref = _cached_functions(ast.parse(ref_ov[rel])) if rel in ref_ov else {}
+        for q, (cls, fn) in cur.items():
+            if q in ref:
+                continue
+            n_new += 1
+            methods = {m.name: m for m in cls.body if isinstance(m, ast.FunctionDef)}
+            seen, todo, reads = set(), [fn], set()
+            depth = {id(fn): 0}
+            while todo:
+                f = todo.pop()
+                if id(f) in seen:
+                    continue
+                seen.add(id(f))
+                callee_attrs = {id(c.func) for c in ast.walk(f) if isinstance(c, ast.Call) and isinstance(c.func, ast.Attribute)}
+                for n in ast.walk(f):
+                    if isinstance(n, ast.Attribute) and isinstance(n.ctx, ast.Load) and id(n) not in callee_attrs:
+                        reads.add(n.attr)
+                    if isinstance(n, ast.Call) and isinstance(n.func, ast.Attribute) and isinstance(n.func.value, ast.Name) and n.func.value.id == "self" \
+                            and n.func.attr in methods and depth[id(f)] < 2:
+                        g = methods[n.func.attr]
+                        depth.setdefault(id(g), depth[id(f)] + 1)
+                        todo.append(g)
+            hot = sorted(a for a in reads if a in written and not a.startswith("__"))
+            rep.ob("C03.R3", fn, f"{q}: newly memoised; attributes it reads {sorted(reads)[:8]}", not hot,
+                   "" if not hot else f"the memo freezes a result that depends on {hot[:4]} (assigned e.g. in {written[hot[0]]}): after such a change the method keeps returning the value of its first call",
+                   key=f"C03.R3@{q}:new-memo")
+    rep.extra["newly_memoised_methods"] = n_new
+
+
 def check_memo(repo, rep):
     """R3: memoised methods depend only on their key arguments; caches are per instance."""
     n_sites = 0
@@ -437,6 +500,7 @@ def check_memo(repo, rep):
                 rep.ob("C03.R3", fn, f"{cls.name}.{fn.name}: memoised method has no stored-object effect", ok,
                        "" if ok else f"@cache makes the effect run only on the first call: {eff[0][0]} at {eff[0][2]} ({eff[0][1]}); later saves or edits skip it",
                        key=f"C03.R3@{cls.name}.{fn.name}:effect-free")
+    rep.sub(check_new_memo, repo, rep)
     # the decorator itself
     cache = repo.func("numbers_cache.py", "cache")
     src = U(cache)
@@ -566,6 +630,8 @@ VARIANTS = [
     M("new-col-cell-wrong-col", "document.py", "Cell._empty_cell(self._table_id, row, start_col + col, self._model)", "Cell._empty_cell(self._table_id, row, col, self._model)", "C03.R2"),
     M("renumber-swapped-axes", "document.py", "                    self._data[row][col].row = row\n                    self._data[row][col].col = col\n",
       "                    self._data[row][col].row = col\n                    self._data[row][col].col = row\n", "C03.R2"),
+    M("memo-table-names", "model.py", "    def table_names(self):", "    @cache(num_args=0)\n    def table_names(self):", "C03.R3"),
+    M("memo-custom-format", "cell.py", "    def _custom_format(self) -> str:", "    @cache(num_args=0)\n    def _custom_format(self) -> str:", "C03.R3"),
     M("cache-key-narrowed", "model.py", "    @cache(num_args=2)\n    def table_string(", "    @cache(num_args=1)\n    def table_string(", "C03.R3"),
     M("cache-key-no-separator", "numbers_cache.py", 'key = ".".join([str(args[x]) for x in range(num_args)])', 'key = "".join([str(args[x]) for x in range(num_args)])', "C03.R3"),
     M("cache-on-merge-writer", "model.py", "    def recalculate_merged_cells(self, table_id: int) -> None:", "    @cache()\n    def recalculate_merged_cells(self, table_id: int) -> None:", "C03.R3"),
